@@ -7,7 +7,7 @@ Local Open Scope nat_scope.
 
 Ltac qunf :=
   unfold getu, setu, set_raw, intern, next_index, prev_index, qsize in *;
-  cbv zeta in *; cbn [st arr cnt head tail] in *.
+  cbv zeta in *; cbn [st arr cnt head tail inl] in *.
 
 Section Inv.
 Variables (owning : bool) (sq : nat).
@@ -22,18 +22,26 @@ Definition store_ok (q : q1) : Prop :=
 Definition clean (q : q1) : Prop :=
   owning = true -> forall i, cnt q <= i < qsize q -> getu q i = dflt.
 
+(* the in-object array while it is not the active one: present, and all default items for owning types *)
+Definition inl_ok (q : q1) : Prop :=
+  st q <> SSmall ->
+  length (inl q) = sq /\ (owning = true -> forall i, i < sq -> nth i (inl q) dflt = dflt).
+
 Record inv (q : q1) : Prop := mkInv {
   inv_sq : 0 < sq;     (* ARRAYITEMS(_smallQueue) >= 1 *)
   inv_cnt : cnt q <= qsize q;
   inv_head : 0 < qsize q -> head q < qsize q;
   inv_tail : 0 < cnt q -> tail q = intern q (cnt q - 1);
   inv_store : store_ok q;
-  inv_clean : clean q }.
+  inv_clean : clean q;
+  inv_inl : inl_ok q }.
 
-Lemma inv_empty : 0 < sq -> inv empty_q.
+Lemma inv_empty jk : 0 < sq -> inv (empty_q owning jk sq).
 Proof.
   intros Hsq. constructor; try (cbn; lia).
-  intros _ i Hi. cbn in Hi. lia.
+  - intros _ i Hi. cbn in Hi. lia.
+  - intros _. unfold empty_q. cbn [inl]. split; [apply repeat_length|].
+    intros Ho i Hi. rewrite nth_repeat'. unfold fresh. rewrite Ho. dif; reflexivity.
 Qed.
 
 Lemma store_null_arr q : inv q -> st q = SNull -> arr q = [].
@@ -59,15 +67,17 @@ Qed.
 
 Lemma inv_same_shape q q' :
   inv q -> st q' = st q -> qsize q' = qsize q -> cnt q' = cnt q -> head q' = head q ->
-  tail q' = tail q -> (forall i, cnt q <= i < qsize q -> getu q' i = getu q i) -> inv q'.
+  tail q' = tail q -> inl q' = inl q ->
+  (forall i, cnt q <= i < qsize q -> getu q' i = getu q i) -> inv q'.
 Proof.
-  intros [I0 I1 I2 I3 I4 I5] Hs Hq Hc Hh Ht Hg. constructor.
+  intros [I0 I1 I2 I3 I4 I5 I6] Hs Hq Hc Hh Ht Hi Hg. constructor.
   - exact I0.
   - lia.
   - rewrite Hq, Hh. exact I2.
   - rewrite Hc, Ht. intros H. rewrite (intern_congr q q') by assumption. auto.
   - unfold store_ok in *. rewrite Hs, Hq. exact I4.
-  - intros Ho i Hi. rewrite Hc, Hq in Hi. rewrite Hg by exact Hi. apply I5; assumption.
+  - intros Ho i Hi'. rewrite Hc, Hq in Hi'. rewrite Hg by exact Hi'. apply I5; assumption.
+  - unfold inl_ok in *. rewrite Hs, Hi. exact I6.
 Qed.
 
 (* ------------------------------------------------------------------ writes inside the window *)
@@ -94,18 +104,18 @@ Proof. intros. symmetry. apply nth_abs. assumption. Qed.
 
 Lemma remove_head_eq q : 0 < cnt q ->
   remove_head owning q =
-  clear_slot owning (mkQ (st q) (arr q) (cnt q - 1) (next_index q (head q)) (tail q)) (head q).
+  clear_slot owning (mkQ (st q) (arr q) (cnt q - 1) (next_index q (head q)) (tail q) (inl q)) (head q).
 Proof. intros H. unfold remove_head. destruct (cnt q); [lia|]. cbn [Nat.sub]. rewrite Nat.sub_0_r. reflexivity. Qed.
 
 Lemma remove_tail_eq q : 0 < cnt q ->
   remove_tail owning q =
-  clear_slot owning (mkQ (st q) (arr q) (cnt q - 1) (head q) (prev_index q (tail q))) (tail q).
+  clear_slot owning (mkQ (st q) (arr q) (cnt q - 1) (head q) (prev_index q (tail q)) (inl q)) (tail q).
 Proof. intros H. unfold remove_tail. destruct (cnt q); [lia|]. cbn [Nat.sub]. rewrite Nat.sub_0_r. reflexivity. Qed.
 
 Lemma remove_head_shape q : inv q -> 0 < cnt q ->
   let q' := remove_head owning q in
   st q' = st q /\ qsize q' = qsize q /\ cnt q' = cnt q - 1 /\ head q' = next_index q (head q) /\
-  tail q' = tail q /\
+  tail q' = tail q /\ inl q' = inl q /\
   (forall i, i < qsize q ->
      getu q' i = if i + 1 <? qsize q then getu q (i + 1) else if owning then dflt else getu q 0).
 Proof.
@@ -121,7 +131,7 @@ Qed.
 Lemma remove_tail_shape q : inv q -> 0 < cnt q ->
   let q' := remove_tail owning q in
   st q' = st q /\ qsize q' = qsize q /\ cnt q' = cnt q - 1 /\ head q' = head q /\
-  tail q' = prev_index q (tail q) /\
+  tail q' = prev_index q (tail q) /\ inl q' = inl q /\
   (forall i, i < qsize q ->
      getu q' i = if owning && (i =? cnt q - 1) then dflt else getu q i).
 Proof.
@@ -135,7 +145,7 @@ Qed.
 
 Lemma inv_remove_head q : inv q -> 0 < cnt q -> inv (remove_head owning q).
 Proof.
-  intros I Hc. destruct (remove_head_shape q I Hc) as (Hs & Hq & Hn & Hh & Ht & Hg).
+  intros I Hc. destruct (remove_head_shape q I Hc) as (Hs & Hq & Hn & Hh & Ht & Hl & Hg).
   pose proof (inv_cnt q I). pose proof (inv_hd q I Hc) as Hd. pose proof (inv_tail q I Hc) as Htl.
   constructor.
   - exact (inv_sq q I).
@@ -145,11 +155,12 @@ Proof.
   - unfold store_ok in *. rewrite Hs, Hq. exact (inv_store q I).
   - intros Ho i Hi. rewrite Hq, Hn in Hi. rewrite Hg by lia. rewrite Ho.
     dif; [|reflexivity]. apply (inv_clean q I Ho). lia.
+  - unfold inl_ok. rewrite Hs, Hl. exact (inv_inl q I).
 Qed.
 
 Lemma abs_remove_head q : inv q -> 0 < cnt q -> abs q = getu q 0 :: abs (remove_head owning q).
 Proof.
-  intros I Hc. destruct (remove_head_shape q I Hc) as (Hs & Hq & Hn & Hh & Ht & Hg).
+  intros I Hc. destruct (remove_head_shape q I Hc) as (Hs & Hq & Hn & Hh & Ht & Hl & Hg).
   pose proof (inv_cnt q I).
   apply abs_ext; cbn [length]; autorewrite with nthdb; [lia|].
   intros i Hi. cbn [length] in Hi. autorewrite with nthdb in Hi.
@@ -159,7 +170,7 @@ Qed.
 
 Lemma inv_remove_tail q : inv q -> 0 < cnt q -> inv (remove_tail owning q).
 Proof.
-  intros I Hc. destruct (remove_tail_shape q I Hc) as (Hs & Hq & Hn & Hh & Ht & Hg).
+  intros I Hc. destruct (remove_tail_shape q I Hc) as (Hs & Hq & Hn & Hh & Ht & Hl & Hg).
   pose proof (inv_cnt q I). pose proof (inv_hd q I Hc) as Hd. pose proof (inv_tail q I Hc) as Htl.
   constructor.
   - exact (inv_sq q I).
@@ -170,12 +181,13 @@ Proof.
   - unfold store_ok in *. rewrite Hs, Hq. exact (inv_store q I).
   - intros Ho i Hi. rewrite Hq, Hn in Hi. rewrite Hg by lia. rewrite Ho.
     dif; [reflexivity|]. apply (inv_clean q I Ho). lia.
+  - unfold inl_ok. rewrite Hs, Hl. exact (inv_inl q I).
 Qed.
 
 Lemma abs_remove_tail q : inv q -> 0 < cnt q ->
   abs (remove_tail owning q) = firstn (cnt q - 1) (abs q).
 Proof.
-  intros I Hc. destruct (remove_tail_shape q I Hc) as (Hs & Hq & Hn & Hh & Ht & Hg).
+  intros I Hc. destruct (remove_tail_shape q I Hc) as (Hs & Hq & Hn & Hh & Ht & Hl & Hg).
   pose proof (inv_cnt q I).
   apply abs_ext; autorewrite with nthdb; [lia|].
   intros i Hi. autorewrite with nthdb in Hi. rewrite Hg by lia.
@@ -223,15 +235,17 @@ Lemma inv_slots_iff q :
    (0 < cnt q -> tail q = intern q (cnt q - 1)) /\
    match st q with SNull => arr q = [] | SSmall => qsize q = sq | SHeap => sq <= qsize q end /\
    (owning = true -> forall s, s < qsize q -> (forall i, i < cnt q -> intern q i <> s) ->
-      nth s (arr q) dflt = dflt)).
+      nth s (arr q) dflt = dflt) /\
+   (st q <> SSmall ->
+      length (inl q) = sq /\ (owning = true -> forall i, i < sq -> nth i (inl q) dflt = dflt))).
 Proof.
   split.
   - intros I. split; [exact (inv_sq q I)|]. split; [exact (inv_cnt q I)|].
     split; [exact (inv_head q I)|]. split; [exact (inv_tail q I)|]. split.
     + pose proof (inv_store q I) as S. unfold store_ok in S. destruct (st q) eqn:E; try exact S.
       apply length_zero_iff_nil. exact S.
-    + intros Ho. apply inv_outside_window; assumption.
-  - intros (H0&H1&H2&H3&H4&H5). constructor; try assumption.
+    + split; [intros Ho; apply inv_outside_window; assumption|exact (inv_inl q I)].
+  - intros (H0&H1&H2&H3&H4&H5&H6). constructor; try assumption.
     + unfold store_ok. destruct (st q); try exact H4. unfold qsize. rewrite H4. reflexivity.
     + intros Ho i Hi. unfold getu. assert (Hh : head q < qsize q) by (apply H2; lia).
       apply (H5 Ho).
